@@ -103,7 +103,7 @@ def run_py(src: str, entry: str, args: list, budget: int = 20000, max_abs: int =
         return list(xs)
 
     g = {"guppy": _Guppy(), "result": result, "panic": panic, "array": array, "nat": int, "owned": None,
-         "comptime": lambda x: x, "__name__": "_pyref", "exit": panic}
+         "comptime": lambda x: x, "__name__": "_pyref", "exit": panic, "print": lambda *a, **k: None}
     steps = [0]
 
     def tracer(frame, event, arg):
